@@ -3,6 +3,7 @@
 #  1. confirms the sub-agent's claims in the scratch worktree /tmp/seed/<ID> (tests pass with the change; demo fails with / passes without)
 #  2. applies the patch to /repo, runs the given quick checks (default: the property's own), reverts
 set -u
+export VERIF_EVIDENCE_DIR=/verif/harness/target/scratch-evidence  # never overwrite committed evidence with results from a broken tree
 ID=$1; N=$2; shift 2
 CHECKS="${*:-$ID}"
 OUT=/tmp/seed/out/$ID; WT=/tmp/seed/$ID
